@@ -91,7 +91,32 @@ fn random_depths(rng: &mut Rng, n: usize, maxl: u8, deep_bias: u64) -> Vec<u8> {
     while leaves.len() < n {
         // candidates: leaves with depth < maxl
         let mut idx = None;
-        if rng.chance(deep_bias, 100) {
+        if deep_bias >= 200 {
+            // "spine then bushy bottom": split only leaves at depth >= floor while such exist (many 11..15 bit
+            // codes, i.e. a big overflow tree in table-driven decoders), else the deepest splittable one
+            let floor = (deep_bias - 200) as u8;
+            let cnt = leaves.iter().filter(|&&d| d < maxl && d >= floor).count();
+            if cnt > 0 {
+                let mut k = rng.usize_below(cnt);
+                for (i, &d) in leaves.iter().enumerate() {
+                    if d < maxl && d >= floor {
+                        if k == 0 {
+                            idx = Some(i);
+                            break;
+                        }
+                        k -= 1;
+                    }
+                }
+            } else {
+                let mut best = 0u8;
+                for (i, &d) in leaves.iter().enumerate() {
+                    if d < maxl && (idx.is_none() || d > best) {
+                        best = d;
+                        idx = Some(i);
+                    }
+                }
+            }
+        } else if rng.chance(deep_bias, 100) {
             // prefer the deepest splittable leaf (spine-like tree => long codes)
             let mut best = 0u8;
             for (i, &d) in leaves.iter().enumerate() {
@@ -204,6 +229,14 @@ fn make_incomplete(lens: &mut Vec<u8>, maxl: u8, prefer_unused: &[bool]) {
     if lens.iter().all(|&l| l == 0) {
         lens[0] = 2;
         return;
+    }
+    let maxlen = lens.iter().copied().max().unwrap_or(0);
+    if maxlen > 1 && lens.iter().filter(|&&l| l > 0).count() > 2 && (lens.len() + maxlen as usize) % 2 == 0 {
+        // deficit of exactly one leaf at the maximum depth
+        if let Some(q) = (0..lens.len()).rev().find(|&s| lens[s] == maxlen && !prefer_unused.get(s).copied().unwrap_or(false)).or_else(|| (0..lens.len()).rev().find(|&s| lens[s] == maxlen)) {
+            lens[q] = 0;
+            return;
+        }
     }
     let cand = (0..lens.len()).find(|&s| lens[s] > 0 && lens[s] < maxl && !prefer_unused.get(s).copied().unwrap_or(false));
     let p = cand.or_else(|| (0..lens.len()).find(|&s| lens[s] > 0 && lens[s] < maxl));
@@ -320,6 +353,9 @@ pub struct GenCfg {
     pub spec: Spec,
     /// maximum distance allowed (for ring tests with small rings); 32768 normally
     pub max_dist: usize,
+    /// > 0: "window edge" family - the first block(s) produce exactly this many bytes and the next block
+    /// starts with a match whose distance sits on that edge (32767 / 32768 / = produced ...)
+    pub edge: usize,
 }
 
 #[derive(Clone, Copy)]
@@ -510,12 +546,20 @@ fn write_block(
     poison: Spec,
     lt: &LenTab,
     max_dist_seen: &mut usize,
+    preset: Option<(Vec<T>, u8)>,
+    force_first: Option<(usize, usize)>,
 ) -> u8 {
     let mut btype = match rng.below(10) {
         0 | 1 => 0u8,
         2 | 3 | 4 => 1,
         _ => 2,
     };
+    if let Some((_, bt)) = &preset {
+        btype = *bt;
+    }
+    if force_first.is_some() && btype == 0 {
+        btype = if rng.chance(1, 2) { 1 } else { 2 };
+    }
     match poison {
         Spec::Btype3 => {
             w.bits(bfinal as u32, 1);
@@ -580,7 +624,30 @@ fn write_block(
     let style = rng.next_u64();
     let n = if rng.chance(1, 12) { 0 } else { ntok };
     let out_budget = if n == 0 { 0 } else { rng.range(n / 2 + 1, n * 2 + 2) };
-    let mut toks = gen_tokens(rng, plain, n, out_budget, cfg, feat, style);
+    let mut toks = match preset {
+        Some((t, _)) => t, // caller has already appended the bytes to `plain`
+        None => {
+            let mut first: Vec<T> = Vec::new();
+            if let Some((len, dist)) = force_first {
+                if dist >= 1 && dist <= plain.len() && dist <= 32768 {
+                    for _ in 0..len {
+                        let b = plain[plain.len() - dist];
+                        plain.push(b);
+                    }
+                    if dist == 32768 {
+                        feat.dist32768 = true;
+                    }
+                    if len == 258 {
+                        feat.len258 = true;
+                    }
+                    first.push(T::Match(len as u16, dist as u16));
+                }
+            }
+            let rest = gen_tokens(rng, plain, n, out_budget, cfg, feat, style);
+            first.extend(rest);
+            first
+        }
+    };
     if poison == Spec::DistBeforeStart {
         // a match reaching one..many bytes before the start of the output
         let d = plain.len() + rng.range(1, 40);
@@ -635,7 +702,7 @@ fn write_block(
         ll_lens = ll;
         d_lens = vec![5u8; 32];
     } else {
-        let deep = rng.pick(&[0u64, 10, 40, 80, 97]);
+        let deep = rng.pick(&[0u64, 10, 40, 80, 97, 206, 209, 210, 211]);
         let extra_ll = match rng.below(4) {
             0 => 0,
             1 => rng.range(0, 10),
@@ -828,12 +895,60 @@ pub fn generate(rng: &mut Rng, cfg: &GenCfg) -> Stream {
     let poison_block = if cfg.spec != Spec::None && !cfg.spec.is_zlib() { rng.usize_below(nblocks) } else { usize::MAX };
     let mut max_dist = 0usize;
     let mut poisoned = false;
+    let mut force_first: Option<(usize, usize)> = None;
+    if cfg.edge > 0 {
+        // first part: exactly cfg.edge bytes, as stored blocks or as one dynamic block of literals with a
+        // two-symbol alphabet (1-2 bit codes: the decoder's read-ahead then holds several symbols)
+        let p = cfg.edge;
+        if rng.chance(1, 2) {
+            let mut left = p;
+            while left > 0 || plain.is_empty() && p == 0 {
+                let l = left.min(if rng.chance(1, 2) { 65535 } else { rng.range(1, 65535) });
+                let start_bit = w.bitpos();
+                w.bits(0, 1);
+                w.bits(0, 2);
+                let filler = rng.below(256) as u32;
+                w.align_with(filler);
+                w.bits(l as u32, 16);
+                w.bits(!(l as u32) & 0xFFFF, 16);
+                let data = rng.bytes(l);
+                w.bytes(&data);
+                plain.extend_from_slice(&data);
+                blocks.push(BlockTruth { btype: 0, start_bit, end_bit: w.bitpos(), out_end: plain.len() });
+                feat.blocks += 1;
+                left -= l;
+                if p == 0 {
+                    break;
+                }
+            }
+        } else {
+            let a = rng.below(256) as u8;
+            let b2 = a.wrapping_add(1 + rng.below(254) as u8);
+            let mut t = Vec::with_capacity(p);
+            for _ in 0..p {
+                let x = if rng.chance(3, 4) { a } else { b2 };
+                plain.push(x);
+                t.push(T::Lit(x));
+            }
+            let start_bit = w.bitpos();
+            let bt = write_block(rng, &mut w, &mut plain, cfg, &mut feat, false, 0, Spec::None, &lt, &mut max_dist, Some((t, 2)), None);
+            blocks.push(BlockTruth { btype: bt, start_bit, end_bit: w.bitpos(), out_end: plain.len() });
+            feat.blocks += 1;
+        }
+        let produced = plain.len();
+        let d = rng.pick(&[produced, produced.saturating_sub(1).max(1), 32768, 32767, 1, produced / 2 + 1]).min(produced.max(1)).min(32768).min(cfg.max_dist.max(1));
+        let l = rng.pick(&[3usize, 4, 258, 257, 100, 19]);
+        if produced > 0 {
+            force_first = Some((l, d));
+        }
+    }
     for bi in 0..nblocks {
         let bfinal = bi == nblocks - 1;
         let start_bit = w.bitpos();
         let ntok = if per_block < 64 { rng.range(0, per_block) } else { rng.range(per_block / 8, per_block) };
         let poison = if bi == poison_block { cfg.spec } else { Spec::None };
-        let bt = write_block(rng, &mut w, &mut plain, cfg, &mut feat, bfinal, ntok, poison, &lt, &mut max_dist);
+        let ff = if bi == 0 && poison == Spec::None && rng.chance(2, 3) { force_first.take() } else { None };
+        let bt = write_block(rng, &mut w, &mut plain, cfg, &mut feat, bfinal, ntok, poison, &lt, &mut max_dist, None, ff);
         blocks.push(BlockTruth { btype: bt, start_bit, end_bit: w.bitpos(), out_end: plain.len() });
         feat.blocks += 1;
         if poison != Spec::None {
